@@ -53,7 +53,8 @@ def gen(rng, n, tier):
                                  else rnd_slice(rng, mk, steps=(None, None, None, 1, 2, -1)))
         m0 = d["missed"]
         yield [["bucket", "%dd/%s" % (nd, "+".join(it[0] for it in items))], ["hist", h], ["names", d["names"]],
-               ["under", m0[0] if nd == 1 else 0], ["over", m0[1] if nd == 1 else 0], ["keep", keep], ["items", items], ["tuple", tup]]
+               ["under", m0[0] if nd == 1 else 0], ["over", m0[1] if nd == 1 else 0], ["keep", keep], ["items", items], ["tuple", tup],
+               ["npint", rng.choice(["F", "F", "int64", "int32"])]]      # integer indices spelled as numpy integers (impl side only)
 
 def _py_item(it):
     import numpy as np
@@ -70,6 +71,7 @@ def impl(case):
     nd = h.ndim
     before = C.snap(h)
     items = [_py_item(it) for it in d["items"]]
+    if d.get("npint", "F") != "F": items = [(getattr(np, d["npint"])(x) if isinstance(x, int) else x) for x in items]
     idx = tuple(items) if d["tuple"] == "T" else items[0]
     try:
         r = h[idx]
